@@ -404,7 +404,7 @@ def describe_step(node, step):
         return "child-block"
     if t == "f":
         name = node[1]
-        if name == "map" and node[3] and node[3][0][1][0] == "klit":
+        if name == "map" and node[3] and node[3][0][0] is None and node[3][0][1][0] == "klit":
             name = f"map({node[3][0][1][1]})"
         if i == 2:
             return f"filter:{name}"
@@ -567,7 +567,7 @@ def count_constructs(ctx, case, seen):
             if t == "f":
                 seen.add(n[1])
                 ctx.count("filter." + n[1])
-                if n[1] == "map" and n[3] and n[3][0][1][0] == "klit":
+                if n[1] == "map" and n[3] and n[3][0][0] is None and n[3][0][1][0] == "klit":
                     seen.add(n[3][0][1][1])
                     ctx.count("filter." + n[3][0][1][1])
             elif t == "fblock":
